@@ -25,7 +25,7 @@ Your task: make a change to the repository source (not to tests) that BREAKS thi
 
 The existing suite: /root/.vp/BASELINE.json lists under "stable_pass" the tests that pass on the unchanged tree (the "always_fail" ones fail only because they exceed a time limit in debug builds; ignore those). You do not need to run all 252 (that takes ~30 min); run every stable_pass test of the crates you touched and of the crates that depend on the changed code path (e.g. `cargo test --offline -p <crate> --lib`, and `cargo test --offline -p tests <filter>` for the integration crate), and make sure they all still pass with your change. If a stable_pass test fails with your change, pick a different change.
 
-Then write a demonstration: a new test file or small program (it may use only crates already in the workspace / cargo cache) that FAILS (or shows the violated property) with your change applied and PASSES on the unchanged tree. Verify both directions yourself (use `git stash` / `git diff > patch; git checkout` to flip). Circuit-level changes can be demonstrated by producing a proof that verifies for a statement the property forbids, or a witness/proof for which outputs differ from what the property says; release mode (`--release`) makes proving fast.
+Then write a demonstration: a new test file or small program (it may use only crates already in the workspace / cargo cache) that FAILS (or shows the violated property) with your change applied and PASSES on the unchanged tree. Verify both directions yourself: flip with `git diff > {wt}/SEED/flip.diff; git apply -R {wt}/SEED/flip.diff; ... ; git apply {wt}/SEED/flip.diff` (do NOT use `git stash`: the stash is shared between all worktrees of this repository and other people work in sibling worktrees). Circuit-level changes can be demonstrated by producing a proof that verifies for a statement the property forbids, or a witness/proof for which outputs differ from what the property says; release mode (`--release`) makes proving fast.
 
 Deliverables, all under {wt}/SEED/ (create it; it must NOT be part of patch.diff):
   - patch.diff : `git diff` of the source change only (no demo, no SEED), applicable with `git apply` at the repository root
